@@ -222,7 +222,14 @@ impl OpKind {
             Div => a[0] / a[1],
             Axpy(al) => Array::axpy(*al as Float, a[0], a[1]),
             Neg => -a[0],
-            Scale(s) => a[0] * (*s as Float),
+            // both spellings of the scalar product: `&a * s` and `s * &a`
+            Scale(s) => {
+                if node_id % 2 == 0 {
+                    a[0] * (*s as Float)
+                } else {
+                    (*s as Float) * a[0]
+                }
+            }
             Powf(e) => a[0].powf(*e as Float),
             Ln => a[0].ln(),
             Exp => a[0].exp(),
